@@ -10,6 +10,7 @@
 //!   @ fop <f32|f64> <op> <abits> <bbits>
 //!   @ fident <f32|f64> <abits>
 //!   @ user <routine> <Fp|Rat> <args…>          (c19_user.rs)
+//!   @ trop|trsc|trneg|trpow|recop|recsc|recneg|recpow …   Trace / Record operators (c19_wrap.rs)
 //!
 //! The operators are reached through easy-ml's own trait machinery wherever the type is
 //! `Numeric` (`T: Numeric, for<'a> &'a T: NumericRef<T>`), so the blanket impls of
@@ -26,6 +27,8 @@ use std::num::{Saturating, Wrapping};
 
 #[path = "c19_user.rs"]
 pub mod user;
+#[path = "c19_wrap.rs"]
+pub mod wrap;
 
 pub const INT_TYS: [&str; 12] =
     ["u8", "i8", "u16", "i16", "u32", "i32", "u64", "i64", "u128", "i128", "usize", "isize"];
@@ -785,6 +788,8 @@ pub fn gen(g: &mut Gen) {
     }
     // ---- user-defined element types at every generic routine ---------------------------------
     user::gen(g);
+    // ---- Trace / Record operators: every operand form --------------------------------------
+    wrap::gen(g);
 }
 
 pub struct Runner;
@@ -810,6 +815,9 @@ impl Runner {
             ["@", "fop", ty, op, a, b] => fop_line(ty, op, a, b),
             ["@", "fident", ty, a] => fident_line(ty, a),
             ["@", "user", rest @ ..] => user::run(rest),
+            ["@", cmd @ ("trop" | "trsc" | "trneg" | "trpow" | "recop" | "recsc" | "recneg" | "recpow"), rest @ ..] => {
+                wrap::run(cmd, rest)
+            }
             _ => "bad-op".into(),
         }
     }
